@@ -6,15 +6,15 @@ props=[json.loads(l) for l in open('/verif/properties.jsonl')]
 TECH="bounded symbolic execution of the real code's go/ssa + SMT (z3; cvc5/z3-5.1 portfolio), counterexamples replayed natively"
 COMMON_NOTE=" Trusted base: roaring w64 model, bbolt transactional model, gob identity blob, ghost file system (each validated by native differential replays of sampled passing paths on every run), go/ssa lowering, the interpreter, z3. Bounded claim: see evidence coverage.bounds."
 claimed={
- "C01": ("Reader: Execute/eval/GetCol/open executed symbolically with every stored row set an arbitrary 64-bit solver variable, every expression shape within the bound unfolded by forking, Count compared with the cardinality of a reference denotation (cardinality = uninterpreted function, counterexamples re-solved under true popcount). Writers: C05's harness (three writer paths, abstract hash).", "§4 C01", "Outside: >64 rows, trees beyond depth 2 / arity 4, NUL in column names (known finding, see known_findings.json), hash collisions (assumed away)."),
+ "C01": ("Reader: Execute/eval/GetCol/open executed symbolically with every stored row set an arbitrary 64-bit solver variable, every expression shape within the bound unfolded by forking, Count compared with the cardinality of a reference denotation (cardinality = uninterpreted function, counterexamples re-solved under true popcount). Writers: C05's harness (three writer paths, abstract hash). Two independent indexes queried concurrently (race analysis).", "§4 C01", "Outside: >64 rows, trees beyond depth 2 / arity 4, NUL in column names (known finding, see known_findings.json), hash collisions (assumed away)."),
  "C02": ("Execute/populateGroupBy/groupBy executed symbolically over arbitrary row sets for every group-by list up to the bound; result compared field by field with a reference cartesian product; append modelled after runtime.growslice so that slice aliasing is visible; a reused Query value on a second index (C08's harness).", "§4 C02", "Outside: lists longer than 5, >3 values per column."),
  "C03": ("Cache keys: for every template pair within the bound the solver decides whether the keys coincide for all leaf hashes and whether the meanings differ; any such pair is executed end-to-end. Histories: symbolic data, four cache configurations, two getters, every result compared with the cache-less reference.", "§4 C03", "Outside: deeper templates; eviction-dependent hit patterns inside a history."),
- "C05": ("AddRow/Flush of both writers, open, GetSchema, Execute executed symbolically for every short row sequence with abstract (arbitrary 64-bit) hashes for one column; all observations compared with the rows added; reopen rounds; a second write of the same writer; the big writer around its 1000-row commit.", "§4 C05", "Outside: >3 rows per symbolic sequence."),
+ "C05": ("AddRow/Flush of both writers, open, GetSchema, Execute executed symbolically for every short row sequence with abstract (arbitrary 64-bit) hashes for one column; all observations compared with the rows added; reopen rounds; a second write of the same writer; the big writer around its 1000-row commit; two independent writers used concurrently (race analysis).", "§4 C05", "Outside: >3 rows per symbolic sequence."),
  "C06": ("Every committed prefix of the writers' output transactions (commit log of the bbolt model; natively file snapshots taken at verif-tagged commit hooks) is opened by the real open code and must be rejected or answer like the complete index.", "§4 C06", "No symbolic data in this check (crash prefixes are enumerated from the commit log; the solver only confirms path feasibility). Outside: torn writes, SIGKILL timing, temp-database batches of the big writer."),
  "C07": ("Bounded symbolic execution of the real LRUCache code (NewLRUCache/Get/Put, container/list from go/ssa) over every Put/Get history up to the stated length with symbolic capacity, keys and bitmap sizes; constraint-set oracle checked in a final probe phase.", "§4 C07", "Outside: longer histories, sizes > 1 MiB, concurrent use (C04)."),
- "C08": ("One Query value executed repeatedly on two indexes (symbolic and concrete data); results compared with the C02 reference, caller-visible fields (group-by list, expression tree incl. operand slices with repeated operands) compared with the given ones after every execution.", "§4 C08", "Outside: lists > 2, sharing between goroutines."),
+ "C08": ("One Query value executed repeatedly on two indexes (symbolic and concrete data); results compared with the C02 reference, caller-visible fields (group-by list, expression tree incl. operand slices with repeated operands) compared with the given ones after every execution; with a caching index and a caller-side change of the query between executions.", "§4 C08", "Outside: lists > 2, sharing between goroutines."),
  "C15": ("OpenIndex/OpenIndexFromBoltDatabase/options/Close executed on the bbolt model for each damage of a valid index and each option set; no panic path, lock released on every failure, Close callable three times, no creation of absent paths; opener flag arithmetic over symbolic flags.", "§4 C15", "Outside: combinations of damages, corrupt bbolt pages."),
- "C16": ("Flush onto pre-existing files of four kinds must fail and leave the ghost file's version unchanged; open/query/schema/close sequences must not change it (any write transaction on the model bumps it); exclusive-create flag arithmetic over symbolic flags; another process creating the output path at any file system operation of Flush (environment fork in the ghost file system) must win or lose cleanly.", "§4 C16", "Outside: kernel O_EXCL semantics, read-only files."),
+ "C16": ("Flush onto pre-existing files of four kinds must fail and leave the ghost file's version unchanged; open/query/schema/close sequences must not change it (any write transaction on the model bumps it); exclusive-create flag arithmetic over symbolic flags; another process creating the output path at any file system operation of Flush (environment fork in the ghost file system) must win or lose cleanly; descriptor exhaustion (every open fails with EMFILE) must leave an existing output alone.", "§4 C16", "Outside: kernel O_EXCL semantics, read-only files."),
 }
 
 claimed.update({
@@ -23,8 +23,8 @@ claimed.update({
  "C10": ("QueryToString then ParseQuery (and again) executed symbolically over every small tree with symbolic first-leaf contents; both sides normalised; stability of the second text.", "§4 C10", "Symbolic placeholders up to 4 digits only (the %d/Atoi round trip does not bit-blast; 6 concrete boundary values up to MaxInt32 are added). Outside: deeper/wider trees."),
  "C11": ("fileConn.QueryContext / Prepare / fileStmt.Query / NumInput / ReplacePlaceholders / Execute executed with symbolic argument strings on a fixed index; rows compared with a reference evaluation; too few arguments must give an error, never a panic.", "§4 C11", "Outside: database/sql itself, integer arguments, the gRPC statement path."),
  "C12": ("updogDriver.Open/openFile, QueryContext/Prepare, newRows, rows.Columns/Next/ColumnType* executed over forked datasets, 10 query texts and 4 DSN option sets; rows compared with an independent SQL-style reference; bound arguments with repeated placeholders.", "§4 C12", "Datasets and query texts are enumerated by forking (small alphabet); the solver's role here is path feasibility. Outside: net/url, database/sql."),
- "C13": ("server.Query, convert.ToQuery/ToProtobufResult/ToResult executed with symbolic ids, counts and strings; batch order, id defaulting, all-or-error, field-by-field equality with Index.Execute.", "§4 C13", "The grpc:// driver path runs against a stub client (the network and the real server process are outside). Outside: wire encoding, transport."),
- "C14": ("server.Query/convert.toExpr/Index.Execute executed on every request tree within the bound in which any wire-optional pointer may be nil; requests without queries and mixed batches; every panic path is a violation; follow-up probe must be correct.", "§4 C14", "Outside: protobuf decoding of raw bytes, deep nesting (stack)."),
+ "C13": ("server.Query, convert.ToQuery/ToProtobufResult/ToResult executed with symbolic ids, counts and strings; batch order, id defaulting, all-or-error, field-by-field equality with Index.Execute; two requests in flight on one server (race analysis, bounded-preemption interleavings).", "§4 C13", "The grpc:// driver path runs against a stub client (the network and the real server process are outside). Outside: wire encoding, transport."),
+ "C14": ("server.Query/convert.toExpr/Index.Execute executed on every request tree within the bound in which any wire-optional pointer may be nil; requests without queries and mixed batches; two concurrent requests; every panic path is a violation; follow-up probe must be correct.", "§4 C14", "Outside: protobuf decoding of raw bytes, deep nesting (stack)."),
  "C17": ("Driver handle cache (openFile, fileConn.Close/QueryContext) on the bbolt model whose exclusive file lock turns a second open of a held file into a blocked goroutine: all short sequential histories and all bounded-preemption interleavings of two goroutines; deadlock, panic, wrong rows or a lock left behind are violations.", "§4 C17", "Outside: database/sql's pool, >2 goroutines, >2 files."),
  "C18": ("Both AddRow implementations under 2 goroutines (and the big writer across its 1000-row commit): happens-before race detection over all accesses (race detector confirms natively) and bounded-preemption interleavings; ids a permutation, flushed index equals sequential insertion (unique tags, schema, grouping).", "§4 C18", "Outside: more goroutines, more preemptions."),
  "C19": ("createCmd/normalizeHeader and both writers executed with a contract-obeying csv stub and symbolic header/field bytes; both modes compared observationally with a reference index; record counts around the --big writer's 1000-row batches; every fault position must produce an error return without blocking and without touching an existing output.", "§4 C19", "Thinnest claim of the set: encoding/csv's parsing, cobra, exit codes are outside; the check covers the repo's own loop, normalisation and error paths."),
